@@ -107,7 +107,15 @@ def optimal_case(case, fail):
         s = np.asarray(code.measure_syndrome(e))
         c = np.asarray(dec.decode(s.copy())).astype(np.int64)
         own_s = decoding.own_syndrome(H, e)
+        et = (case.get('dparams') or {}).get('error_type')
         for sec, mask, w, cpart in (('X', zmask, wx, c[:n]), ('Z', xmask, wz, c[n:])):
+            if et is not None and et != sec:
+                # one-sector matching leaves the other sector alone
+                if cpart.any():
+                    fail('sector_reproduces_syndrome',
+                         f'error_type={et}: the {sec} part of the correction is not zero')
+                    return evals, nt_keys, 'ok'
+                continue
             rows, ker = probs[sec]
             sb = [int(v) for v in own_s[mask]]
             Hs = Hz if sec == 'X' else Hx
@@ -263,7 +271,9 @@ def optimal_cases(draw, max_kernel=18, n_random=12):
     # is almost free and the optimum is most sensitive to the weights
     if p * hi >= 0.5 - 1e-3 or draw(st.integers(0, 2)) == 0:
         p = min(1.0, draw(st.sampled_from([0.45, 0.8, 0.9, 0.98])) * 0.5 / hi)
-    return {'kind': 'optimal', 'decoder': 'MatchingDecoder', 'dparams': {},
+    et = draw(st.sampled_from([None, None, 'X', 'Z']))
+    return {'kind': 'optimal', 'decoder': 'MatchingDecoder',
+            'dparams': {} if et is None else {'error_type': et},
             'code': domain.code_case(cls, size), 'direction': [float(x) for x in r],
             'noise_deformation': nd, 'noise_kwargs': nk, 'error_rate': float(p),
             'syndromes': 'all', 'n_random': n_random, 'max_kernel': max_kernel,
